@@ -3,7 +3,8 @@ L8 — xsdata/formats/dataclass/serializers/code.py : PycodeSerializer
      (render / write / build_imports / repr_object / repr_array / repr_mapping /
       repr_model), xsdata/utils/objects.py : literal_value, and the part of
      xsdata/formats/dataclass/compat.py it uses (Dataclasses.get_fields /
-     default_value), **as the code is**, plus the fragment of Python needed to
+     default_value), **as the code is** (after the fix commits 1242bcb enum
+     qualname, e20b710 tuple brackets, 3837894 json.dumps for QName text), plus the fragment of Python needed to
      say what the emitted source does when it is executed in a fresh namespace.
 
 Layers
@@ -75,6 +76,8 @@ def bytesT : ClsRef := bref cs!"bytes"
 def listT : ClsRef := bref cs!"list"
 def tupleT : ClsRef := bref cs!"tuple"
 def dictT : ClsRef := bref cs!"dict"
+def setT : ClsRef := bref cs!"set"
+def frozensetT : ClsRef := bref cs!"frozenset"
 def qnameT : ClsRef := ⟨Tables.qnameModule, [Tables.qnameName]⟩
 
 inductive Val
@@ -86,9 +89,8 @@ inductive Val
   | str (s : Str) (repr : Str)
   /-- `bytes` or a subclass (`XmlHexBinary`, `XmlBase64Binary`); `repr` is `b'…'` -/
   | bytes (cls : ClsRef) (repr : Str)
-  /-- `xml.etree.ElementTree.QName`; `text` is `value.text`, `repr` is
-      `repr(value.text)` (used only by the patched serializer) -/
-  | qname (text : Str) (repr : Str)
+  /-- `xml.etree.ElementTree.QName`; `text` is `value.text` -/
+  | qname (text : Str)
   /-- a value of class `cls` whose `repr` is the constructor call
       `callee(args)` (`Decimal('1.5')`, `XmlDate(2000, 1, 2)`); `n` is its
       numeric value when it takes part in numeric `==` (Decimal) -/
@@ -96,6 +98,8 @@ inductive Val
   | enum (cls : ClsRef) (member : Str)
   | list (xs : List Val)
   | tuple (xs : List Val)
+  /-- `set` / `frozenset`; `xs` in iteration order -/
+  | set (frozen : Bool) (xs : List Val)
   | dict (kvs : List (Val × Val))
   /-- dataclass instance: the attribute values in `fields(cls)` order -/
   | model (cls : ClsRef) (attrs : List Val)
@@ -151,9 +155,9 @@ def leafEq (a b : Val) : Bool :=
     | .none, .none => true
     | .str s _, .str t _ => s == t
     -- `QName.__eq__` compares `.text` with a plain string too (both directions)
-    | .str s _, .qname t _ => s == t
-    | .qname s _, .str t _ => s == t
-    | .qname s _, .qname t _ => s == t
+    | .str s _, .qname t => s == t
+    | .qname s, .str t _ => s == t
+    | .qname s, .qname t => s == t
     | .bytes _ r, .bytes _ r' => r == r'
     | .enum c m, .enum c' m' => decide (c = c') && m == m'
     | .opaque c cal ar _, .opaque c' cal' ar' _ => decide (c = c') && cal == cal' && ar == ar'
@@ -169,6 +173,11 @@ def pyEq (a b : Val) : Bool :=
     | _ => false
   | .tuple xs => match b with
     | .tuple ys => pyEqL xs ys
+    | _ => false
+  | .set _ xs => match b with
+    -- `set == frozenset` compares contents; the model compares in iteration
+    -- order (see NOTES: sets only ever meet here when both are empty)
+    | .set _ ys => pyEqL xs ys
     | _ => false
   | .dict kvs => match b with
     | .dict kvs' => pyEqKV kvs kvs'
@@ -199,6 +208,7 @@ def hashable : Val → Bool
   | .dict _ => false
   | .model _ _ => false
   | .tuple xs => hashableL xs
+  | .set frozen xs => frozen && hashableL xs
   | _ => true
 def hashableL : List Val → Bool
   | [] => true
@@ -207,35 +217,41 @@ end
 
 /-! ## The emitted expression -/
 
-/-- Which of the three proposed one-line repairs are applied (NOTES-C18.md).
-`Cfg.asIs` is the code under test; `Cfg.patched` is used only to show that the
-repairs are sufficient. -/
-structure Cfg where
-  /-- `repr_array` writes non-empty tuples as `( …, )` -/
-  tupleFix : Bool
-  /-- enum members are written `Qual.Name.MEMBER` -/
-  enumFix : Bool
-  /-- `literal_value` writes `QName({text!r})` -/
-  qnameFix : Bool
+/-- the four types `collections.is_array` accepts and `repr_array` renders -/
+inductive ArrKind
+  | list
+  | tuple
+  | set
+  | frozenset
 deriving DecidableEq, Repr
 
-def Cfg.asIs : Cfg := ⟨false, false, false⟩
-def Cfg.patched : Cfg := ⟨true, true, true⟩
+def ArrKind.type : ArrKind → ClsRef
+  | .list => listT
+  | .tuple => tupleT
+  | .set => setT
+  | .frozenset => frozensetT
+
+/-- `str(obj)` of the empty container -/
+def ArrKind.emptyText : ArrKind → Str
+  | .list => cs!"[]"
+  | .tuple => cs!"()"
+  | .set => cs!"set()"
+  | .frozenset => cs!"frozenset()"
 
 inductive PyExpr
   /-- a literal token `text` that evaluates to `v`; `ty` is `type(obj)` of the
       object it was produced from -/
   | lit (v : Val) (text : Str) (ty : ClsRef)
-  /-- `repr_array`: `[]` / `()` when empty, a **list display** otherwise,
-      whatever the source type was (`isTuple`) -/
-  | arr (isTuple : Bool) (xs : List PyExpr)
+  /-- `repr_array`: `str(obj)` when empty; otherwise `( … )` for a tuple and a
+      **list display** `[ … ]` for everything else (list, set, frozenset) -/
+  | arr (kind : ArrKind) (xs : List PyExpr)
   | dict (kvs : List (PyExpr × PyExpr))
   /-- `float("inf")` -/
   | floatCall (n : NumV) (arg : Str)
-  /-- `QName("raw")` — `raw` pasted between the quotes unescaped -/
-  | qnameCall (raw : Str) (repr : Str)
+  /-- `QName(<json.dumps(text, ensure_ascii=False)>)` -/
+  | qnameCall (text : Str)
   | opaqueCall (cls : ClsRef) (callee : List Str) (args : Str) (n : Option NumV)
-  /-- `str(member)`: `ClassName.MEMBER`, with `__name__`, not `__qualname__` -/
+  /-- `Qual.Name.MEMBER` (`__qualname__` of the class, `.name` of the member) -/
   | enumRef (cls : ClsRef) (member : Str)
   /-- `Qual.Name(\n kw=…,\n …)` -/
   | call (cls : ClsRef) (kwargs : List (Str × PyExpr))
@@ -253,48 +269,62 @@ def dotted : List Str → Str
   | [a] => a
   | a :: rest => a ++ '.' :: dotted rest
 
-def lastName (p : List Str) : Str := p.getLastD []
+/-! ### `json.dumps(s, ensure_ascii=False)` -/
 
-/-- the name path by which `str(member)` refers to the enum class -/
-def enumNames (cfg : Cfg) (c : ClsRef) : List Str := if cfg.enumFix then c.path else [lastName c.path]
+def hexDigit (n : Nat) : Char := if n < 10 then Char.ofNat (48 + n) else Char.ofNat (87 + n)
+
+/-- `json.encoder.ESCAPE_DCT`: `"` `\` and the C0 controls are escaped, the
+five with a short form by it, the others as `\u00xx`; everything else
+(DEL, non-ASCII, U+2028…) is copied -/
+def jsonEscChar (c : Char) : Str :=
+  if c = '"' then cs!"\\\"" else if c = '\\' then cs!"\\\\"
+  else if c = '\n' then cs!"\\n" else if c = '\r' then cs!"\\r" else if c = '\t' then cs!"\\t"
+  else if c.toNat = 8 then cs!"\\b" else if c.toNat = 12 then cs!"\\f"
+  else if c.toNat < 32 then ['\\', 'u', '0', '0', hexDigit (c.toNat / 16), hexDigit (c.toNat % 16)]
+  else [c]
+
+/-- what `json.dumps` puts between the two double quotes -/
+def jsonBody : Str → Str
+  | [] => []
+  | c :: r => jsonEscChar c ++ jsonBody r
+
+def jsonDumps (s : Str) : Str := '"' :: jsonBody s ++ ['"']
 
 mutual
 /-- the source text, exactly as the generator functions yield it -/
-def PyExpr.text (cfg : Cfg) (level : Nat) : PyExpr → Str
+def PyExpr.text (level : Nat) : PyExpr → Str
   | .lit _ t _ => t
-  | .arr isT [] => if isT then cs!"()" else cs!"[]"
-  | .arr isT (x :: xs) =>
-    if cfg.tupleFix && isT then cs!"(\n" ++ textItems cfg (level + 1) (x :: xs) ++ spaces level ++ cs!")"
-    else cs!"[\n" ++ textItems cfg (level + 1) (x :: xs) ++ spaces level ++ cs!"]"
+  | .arr k [] => k.emptyText
+  | .arr k (x :: xs) =>
+    if k = .tuple then cs!"(\n" ++ textItems (level + 1) (x :: xs) ++ spaces level ++ cs!")"
+    else cs!"[\n" ++ textItems (level + 1) (x :: xs) ++ spaces level ++ cs!"]"
   | .dict [] => cs!"{}"
-  | .dict (p :: ps) => cs!"{\n" ++ textKV cfg (level + 1) (p :: ps) ++ spaces level ++ cs!"}"
+  | .dict (p :: ps) => cs!"{\n" ++ textKV (level + 1) (p :: ps) ++ spaces level ++ cs!"}"
   | .floatCall _ a => Tables.floatLitPre ++ a ++ Tables.floatLitPost
-  | .qnameCall raw r =>
-    if cfg.qnameFix then qnameCallee ++ cs!"(" ++ r ++ cs!")"
-    else Tables.qnameLitPre ++ raw ++ Tables.qnameLitPost
+  | .qnameCall t => Tables.qnameLitPre ++ jsonBody t ++ Tables.qnameLitPost
   | .opaqueCall _ callee args _ => dotted callee ++ args
-  | .enumRef c m => dotted (enumNames cfg c) ++ Tables.enumStrSep ++ m
-  | .call c kws => dotted c.path ++ cs!"(\n" ++ textKw cfg (level + 1) true kws ++ cs!"\n" ++ spaces level ++ cs!")"
-def textItems (cfg : Cfg) (level : Nat) : List PyExpr → Str
+  | .enumRef c m => dotted c.path ++ Tables.enumStrSep ++ m
+  | .call c kws => dotted c.path ++ cs!"(\n" ++ textKw (level + 1) true kws ++ cs!"\n" ++ spaces level ++ cs!")"
+def textItems (level : Nat) : List PyExpr → Str
   | [] => []
-  | x :: xs => spaces level ++ x.text cfg level ++ cs!",\n" ++ textItems cfg level xs
-def textKV (cfg : Cfg) (level : Nat) : List (PyExpr × PyExpr) → Str
+  | x :: xs => spaces level ++ x.text level ++ cs!",\n" ++ textItems level xs
+def textKV (level : Nat) : List (PyExpr × PyExpr) → Str
   | [] => []
-  | (k, v) :: r => spaces level ++ k.text cfg level ++ cs!": " ++ v.text cfg level ++ cs!",\n" ++ textKV cfg level r
-def textKw (cfg : Cfg) (level : Nat) (first : Bool) : List (Str × PyExpr) → Str
+  | (k, v) :: r => spaces level ++ k.text level ++ cs!": " ++ v.text level ++ cs!",\n" ++ textKV level r
+def textKw (level : Nat) (first : Bool) : List (Str × PyExpr) → Str
   | [] => []
   | (n, e) :: r =>
-    (if first then [] else cs!",\n") ++ spaces level ++ n ++ cs!"=" ++ e.text cfg level ++ textKw cfg level false r
+    (if first then [] else cs!",\n") ++ spaces level ++ n ++ cs!"=" ++ e.text level ++ textKw level false r
 end
 
 mutual
 /-- what `types.add(type(obj))` collected while the expression was produced -/
 def PyExpr.types : PyExpr → List ClsRef
   | .lit _ _ ty => [ty]
-  | .arr isT xs => (if isT then tupleT else listT) :: typesL xs
+  | .arr k xs => k.type :: typesL xs
   | .dict kvs => dictT :: typesKV kvs
   | .floatCall _ _ => [floatT]
-  | .qnameCall _ _ => [qnameT]
+  | .qnameCall _ => [qnameT]
   | .opaqueCall c _ _ _ => [c]
   | .enumRef c _ => [c]
   | .call c kws => c :: typesKw kws
@@ -309,26 +339,35 @@ def typesKw : List (Str × PyExpr) → List ClsRef
   | (_, e) :: r => e.types ++ typesKw r
 end
 
+/-- `set()` / `frozenset()` call the builtin by name -/
+def emptyRefs (k : ArrKind) (empty : Bool) : List (List Str × ClsRef) :=
+  if empty then
+    match k with
+    | .set => [([cs!"set"], setT)]
+    | .frozenset => [([cs!"frozenset"], frozensetT)]
+    | _ => []
+  else []
+
 mutual
 /-- the class references the source makes: (dotted name as written, class meant) -/
-def PyExpr.refs (cfg : Cfg) : PyExpr → List (List Str × ClsRef)
+def PyExpr.refs : PyExpr → List (List Str × ClsRef)
   | .lit _ _ _ => []
-  | .arr _ xs => refsL cfg xs
-  | .dict kvs => refsKV cfg kvs
+  | .arr k xs => emptyRefs k xs.isEmpty ++ refsL xs
+  | .dict kvs => refsKV kvs
   | .floatCall _ _ => [([floatCallee], floatT)]
-  | .qnameCall _ _ => [([qnameCallee], qnameT)]
+  | .qnameCall _ => [([qnameCallee], qnameT)]
   | .opaqueCall c callee _ _ => [(callee, c)]
-  | .enumRef c _ => [(enumNames cfg c, c)]
-  | .call c kws => (c.path, c) :: refsKw cfg kws
-def refsL (cfg : Cfg) : List PyExpr → List (List Str × ClsRef)
+  | .enumRef c _ => [(c.path, c)]
+  | .call c kws => (c.path, c) :: refsKw kws
+def refsL : List PyExpr → List (List Str × ClsRef)
   | [] => []
-  | x :: xs => x.refs cfg ++ refsL cfg xs
-def refsKV (cfg : Cfg) : List (PyExpr × PyExpr) → List (List Str × ClsRef)
+  | x :: xs => x.refs ++ refsL xs
+def refsKV : List (PyExpr × PyExpr) → List (List Str × ClsRef)
   | [] => []
-  | (k, v) :: r => k.refs cfg ++ v.refs cfg ++ refsKV cfg r
-def refsKw (cfg : Cfg) : List (Str × PyExpr) → List (List Str × ClsRef)
+  | (k, v) :: r => k.refs ++ v.refs ++ refsKV r
+def refsKw : List (Str × PyExpr) → List (List Str × ClsRef)
   | [] => []
-  | (_, e) :: r => e.refs cfg ++ refsKw cfg r
+  | (_, e) :: r => e.refs ++ refsKw r
 end
 
 /-! ## `repr_object` -/
@@ -355,11 +394,12 @@ def render (W : World) : Val → PyExpr
   | .float n r => if n.isFin then .lit (.float n r) r floatT else .floatCall n r
   | .str s r => .lit (.str s r) r strT
   | .bytes c r => .lit (.bytes bytesT r) r c
-  | .qname t r => .qnameCall t r
+  | .qname t => .qnameCall t
   | .opaque c callee args n => .opaqueCall c callee args n
   | .enum c m => .enumRef c m
-  | .list xs => .arr false (renderL W xs)
-  | .tuple xs => .arr true (renderL W xs)
+  | .list xs => .arr .list (renderL W xs)
+  | .tuple xs => .arr .tuple (renderL W xs)
+  | .set frozen xs => .arr (if frozen then .frozenset else .set) (renderL W xs)
   | .dict kvs => .dict (renderKV W kvs)
   | .model c attrs => .call c (selectKw (W.fieldsOf c) attrs (renderL W attrs))
 def renderL (W : World) : List Val → List PyExpr
@@ -442,9 +482,10 @@ def resolve (W : World) (env : Env) : List Str → Except Err ClsRef
         (if rest.isEmpty then .ok (bref h) else .error .attributeError)
       else .error .nameError
 
-/-- body of a `"…"` literal → the string it denotes. `none`: the literal is
-malformed or uses an escape this model does not decode (octal, `\x`, `\N`,
-`\u`, `\U`, line continuation) -/
+/-- body of a `"…"` literal → the string it denotes, as the Python parser
+reads it. `none`: the literal is malformed, denotes a lone surrogate, or uses
+an escape this model does not decode (octal, `\x`, `\N`, `\U`, line
+continuation) -/
 def simpleEsc (c : Char) : Option Char :=
   if c = '\\' then some '\\' else if c = '\'' then some '\'' else if c = '"' then some '"'
   else if c = 'a' then some (Char.ofNat 7) else if c = 'b' then some (Char.ofNat 8)
@@ -453,23 +494,49 @@ def simpleEsc (c : Char) : Option Char :=
   else if c = 'v' then some (Char.ofNat 11) else Option.none
 
 def hardEsc (c : Char) : Bool :=
-  ('0'.toNat ≤ c.toNat && c.toNat ≤ '7'.toNat) || c = 'x' || c = 'N' || c = 'u' || c = 'U'
+  ('0'.toNat ≤ c.toNat && c.toNat ≤ '7'.toNat) || c = 'x' || c = 'N' || c = 'U'
     || c = '\n' || c = '\r' || c.toNat = 0
+
+def hexVal (c : Char) : Option Nat :=
+  let n := c.toNat
+  if 48 ≤ n && n ≤ 57 then some (n - 48)
+  else if 97 ≤ n && n ≤ 102 then some (n - 87)
+  else if 65 ≤ n && n ≤ 70 then some (n - 55)
+  else Option.none
+
+def isSurrogate (v : Nat) : Bool := 0xD800 ≤ v && v ≤ 0xDFFF
 
 def rawBad (c : Char) : Bool := c = '"' || c = '\n' || c = '\r' || c.toNat = 0
 
-def decodeDq : Bool → Str → Option Str
-  | false, [] => some []
-  | true, [] => Option.none
-  | false, c :: r =>
-    if c = '\\' then decodeDq true r
+/-- state of the literal scanner: plain text, just after a backslash, or inside
+the four hex digits of `\uXXXX` (`left` to go, value so far `acc`) -/
+inductive DqState
+  | normal
+  | esc
+  | hex (left : Nat) (acc : Nat)
+
+def decodeDq : DqState → Str → Option Str
+  | .normal, [] => some []
+  | .esc, [] => Option.none
+  | .hex _ _, [] => Option.none
+  | .normal, c :: r =>
+    if c = '\\' then decodeDq .esc r
     else if rawBad c then Option.none
-    else (decodeDq false r).map (c :: ·)
-  | true, c :: r =>
-    if hardEsc c then Option.none
+    else (decodeDq .normal r).map (c :: ·)
+  | .esc, c :: r =>
+    if c = 'u' then decodeDq (.hex 4 0) r
+    else if hardEsc c then Option.none
     else match simpleEsc c with
-      | some d => (decodeDq false r).map (d :: ·)
-      | Option.none => (decodeDq false r).map (fun t => '\\' :: c :: t)   -- unknown escape: kept (SyntaxWarning)
+      | some d => (decodeDq .normal r).map (d :: ·)
+      | Option.none => (decodeDq .normal r).map (fun t => '\\' :: c :: t)   -- unknown escape: kept (SyntaxWarning)
+  | .hex left acc, c :: r =>
+    match hexVal c with
+    | Option.none => Option.none
+    | some d =>
+      let v := acc * 16 + d
+      if left ≤ 1 then
+        (if isSurrogate v then Option.none else (decodeDq .normal r).map (Char.ofNat v :: ·))
+      else decodeDq (.hex (left - 1) v) r
 
 def kwGet (n : Str) : List (Str × Val) → Option Val
   | [] => Option.none
@@ -498,37 +565,49 @@ def construct : List FieldSpec → List (Str × Val) → Except Err (List Val)
 def kwNamesOK (fs : List FieldSpec) (kw : List (Str × Val)) : Bool :=
   kw.all fun p => fs.any fun f => f.init && f.name == p.1
 
+/-- `set()` / `frozenset()`: a call of the builtin, if the name still means it -/
+def evalEmptySet (W : World) (env : Env) (frozen : Bool) : Except Err Val :=
+  let n := if frozen then cs!"frozenset" else cs!"set"
+  match resolve W env [n] with
+  | .error e => .error e
+  | .ok r => if r = bref n then .ok (.set frozen []) else .error .unmodelled
+
 mutual
-def eval (cfg : Cfg) (W : World) (env : Env) : PyExpr → Except Err Val
+def eval (W : World) (env : Env) : PyExpr → Except Err Val
   | .lit v _ _ => .ok v
-  | .arr isT xs =>
-    match evalL cfg W env xs with
+  | .arr k xs =>
+    match evalL W env xs with
     | .error e => .error e
-    | .ok vs => .ok (if isT && (cfg.tupleFix || vs.isEmpty) then .tuple vs else .list vs)
+    | .ok vs =>
+      match k with
+      | .list => .ok (.list vs)
+      | .tuple => .ok (.tuple vs)
+      | .set => if vs.isEmpty then evalEmptySet W env false else .ok (.list vs)
+      | .frozenset => if vs.isEmpty then evalEmptySet W env true else .ok (.list vs)
   | .dict kvs =>
-    match evalKV cfg W env kvs with
+    match evalKV W env kvs with
     | .error e => .error e
     | .ok ps => if ps.all (fun p => hashable p.1) then .ok (.dict ps) else .error .typeError
   | .floatCall n a =>
     match resolve W env [floatCallee] with
     | .error e => .error e
     | .ok r => if r = floatT then .ok (.float n a) else .error .unmodelled
-  | .qnameCall raw rp =>
+  | .qnameCall t =>
     match resolve W env [qnameCallee] with
     | .error e => .error e
     | .ok r =>
       if r = qnameT then
-        if cfg.qnameFix then .ok (.qname raw rp)   -- `repr(text)` evaluates to `text` (trusted, as for `str`)
-        else match decodeDq false raw with
-          | some t => .ok (.qname t rp)
-          | Option.none => .error .unmodelled
+        -- the parser decodes the literal that `json.dumps` wrote
+        match decodeDq .normal (jsonBody t) with
+        | some t' => .ok (.qname t')
+        | Option.none => .error .unmodelled
       else .error .unmodelled
   | .opaqueCall c callee args n =>
     match resolve W env callee with
     | .error e => .error e
     | .ok r => if r = c then .ok (.opaque c callee args n) else .error .unmodelled
   | .enumRef c m =>
-    match resolve W env (enumNames cfg c) with
+    match resolve W env c.path with
     | .error e => .error e
     | .ok r =>
       match W.find r with
@@ -542,7 +621,7 @@ def eval (cfg : Cfg) (W : World) (env : Env) : PyExpr → Except Err Val
     match resolve W env c.path with
     | .error e => .error e
     | .ok r =>
-      match evalKw cfg W env kws with
+      match evalKw W env kws with
       | .error e => .error e
       | .ok kv =>
         match W.find r with
@@ -554,30 +633,30 @@ def eval (cfg : Cfg) (W : World) (env : Env) : PyExpr → Except Err Val
           else .error .typeError
         | some ⟨_, .enum _⟩ => .error .typeError
         | _ => .error .unmodelled
-def evalL (cfg : Cfg) (W : World) (env : Env) : List PyExpr → Except Err (List Val)
+def evalL (W : World) (env : Env) : List PyExpr → Except Err (List Val)
   | [] => .ok []
   | x :: xs =>
-    match eval cfg W env x with
+    match eval W env x with
     | .error e => .error e
-    | .ok v => match evalL cfg W env xs with
+    | .ok v => match evalL W env xs with
       | .error e => .error e
       | .ok vs => .ok (v :: vs)
-def evalKV (cfg : Cfg) (W : World) (env : Env) : List (PyExpr × PyExpr) → Except Err (List (Val × Val))
+def evalKV (W : World) (env : Env) : List (PyExpr × PyExpr) → Except Err (List (Val × Val))
   | [] => .ok []
   | (k, v) :: r =>
-    match eval cfg W env k with
+    match eval W env k with
     | .error e => .error e
-    | .ok k' => match eval cfg W env v with
+    | .ok k' => match eval W env v with
       | .error e => .error e
-      | .ok v' => match evalKV cfg W env r with
+      | .ok v' => match evalKV W env r with
         | .error e => .error e
         | .ok ps => .ok ((k', v') :: ps)
-def evalKw (cfg : Cfg) (W : World) (env : Env) : List (Str × PyExpr) → Except Err (List (Str × Val))
+def evalKw (W : World) (env : Env) : List (Str × PyExpr) → Except Err (List (Str × Val))
   | [] => .ok []
   | (n, e) :: r =>
-    match eval cfg W env e with
+    match eval W env e with
     | .error e => .error e
-    | .ok v => match evalKw cfg W env r with
+    | .ok v => match evalKw W env r with
       | .error e => .error e
       | .ok ps => .ok ((n, v) :: ps)
 end
@@ -585,45 +664,40 @@ end
 mutual
 /-- does compiling the text depend on string-literal decoding this model does
 not cover (then the compile-time `SyntaxError` would pre-empt everything) -/
-def PyExpr.syntaxRisk (cfg : Cfg) : PyExpr → Bool
-  | .qnameCall raw _ => !cfg.qnameFix && (decodeDq false raw).isNone
-  | .arr _ xs => riskL cfg xs
-  | .dict kvs => riskKV cfg kvs
-  | .call _ kws => riskKw cfg kws
+def PyExpr.syntaxRisk : PyExpr → Bool
+  | .qnameCall t => (decodeDq .normal (jsonBody t)).isNone
+  | .arr _ xs => riskL xs
+  | .dict kvs => riskKV kvs
+  | .call _ kws => riskKw kws
   | _ => false
-def riskL (cfg : Cfg) : List PyExpr → Bool
+def riskL : List PyExpr → Bool
   | [] => false
-  | x :: xs => x.syntaxRisk cfg || riskL cfg xs
-def riskKV (cfg : Cfg) : List (PyExpr × PyExpr) → Bool
+  | x :: xs => x.syntaxRisk || riskL xs
+def riskKV : List (PyExpr × PyExpr) → Bool
   | [] => false
-  | (k, v) :: r => k.syntaxRisk cfg || v.syntaxRisk cfg || riskKV cfg r
-def riskKw (cfg : Cfg) : List (Str × PyExpr) → Bool
+  | (k, v) :: r => k.syntaxRisk || v.syntaxRisk || riskKV r
+def riskKw : List (Str × PyExpr) → Bool
   | [] => false
-  | (_, e) :: r => e.syntaxRisk cfg || riskKw cfg r
+  | (_, e) :: r => e.syntaxRisk || riskKw r
 end
 
 /-! ## `PycodeSerializer.render(obj, var_name)` and what running it gives -/
 
-def sourceC (cfg : Cfg) (W : World) (v : Val) (var : Str) : Str :=
+def source (W : World) (v : Val) (var : Str) : Str :=
   let e := render W v
-  importsText e.types ++ cs!"\n\n" ++ var ++ cs!" = " ++ e.text cfg 0 ++ cs!"\n"
+  importsText e.types ++ cs!"\n\n" ++ var ++ cs!" = " ++ e.text 0 ++ cs!"\n"
 
 /-- the namespace the expression is evaluated in -/
 def importsEnv (W : World) (v : Val) : Env := imports (render W v).types
 
 /-- `exec(source, {})` then `ns[var]` -/
-def runC (cfg : Cfg) (W : World) (v : Val) : Except Err Val := eval cfg W (importsEnv W v) (render W v)
+def run (W : World) (v : Val) : Except Err Val := eval W (importsEnv W v) (render W v)
 
-def outcomeC (cfg : Cfg) (W : World) (v : Val) : Str :=
-  if (render W v).syntaxRisk cfg then cs!"unmodelled" else
-  match runC cfg W v with
+def outcome (W : World) (v : Val) : Str :=
+  if (render W v).syntaxRisk then cs!"unmodelled" else
+  match run W v with
   | .ok v' => if pyEq v' v then cs!"equal" else cs!"unequal"
   | .error .unmodelled => cs!"unmodelled"
   | .error e => cs!"exc:" ++ e.name
-
-/-- the code under test -/
-abbrev source := sourceC Cfg.asIs
-abbrev run := runC Cfg.asIs
-abbrev outcome := outcomeC Cfg.asIs
 
 end Xs.Code
